@@ -48,10 +48,12 @@ Init ==
 Subst(f) == IF f = "offer" THEN Weaker(f) ELSE Evil(f)
 Msg1 ==
   /\ phase = 1
-  /\ \E S \in SUBSET ReqFields :
+  /\ \E S \in SUBSET ReqFields : \E rp \in BOOLEAN :
+       \* rp: after the (possibly rewritten) request has been answered, the attacker also lets the GENUINE request through (same SPI, same address) while the
+       \* responder IKE_SA is half-open.  That is a second request: what the responder holds for the first exchange - and will check AUTH against - stays.
        /\ vR' = [f \in Fields |-> IF f \in ReqFields THEN (IF f \in S THEN Subst(f) ELSE vI[f])
                                   ELSE IF f \in ResFields THEN (IF f = "chosen" /\ "offer" \in S THEN Weaker("chosen") ELSE Honest(f)) ELSE <<"unknown", f>>]
-       /\ last' = [a |-> "Msg1", s |-> S]
+       /\ last' = [a |-> "Msg1", s |-> S, replay |-> rp]
   /\ stR' = "INIT_RES_SENT" /\ phase' = 2
   /\ UNCHANGED <<vI, stI, installed>>
 
